@@ -153,3 +153,16 @@ def prune_diff(ctx: Ctx, chk: Check, entries: list[tuple[FuncInfo, str | None]])
             if k not in a:
                 only.append(f"{short(k[0])} at {k[1].loc()} ({k[1].text[:50]}) from {f.qualname}@{V}")
     chk.notes["escapes_only_without_pruning"] = {"count": len(only), "items": sorted(set(only))[:20], "frames_analysed_without_pruning": e2.frames_analysed}
+
+
+def param_or_empty_forms(prm: str) -> set[str]:
+    """Normalised spellings of "the given mapping, or a fresh empty one when none / an empty one was given"."""
+    return {
+        f"{prm} or {{}}",
+        f"{prm} if {prm} else {{}}",
+        f"{prm} if {prm} is not None else {{}}",
+        f"{{}} if not {prm} else {prm}",
+        f"{{}} if {prm} is None else {prm}",
+        f"{prm} or dict()",
+        f"dict({prm}) if {prm} else {{}}",
+    }
